@@ -26,6 +26,8 @@ type Obligation struct {
 	Failed string // non-empty: tool-limit failure produced without solving
 	Result *SolveResult
 	replayOK bool
+	Split  []*Term // conjuncts of Goal (solved separately only if the whole goal fails)
+	label, site string
 }
 
 type freeBinding struct {
@@ -144,11 +146,10 @@ func (x *Exec) oblige(st *State, kind, label, site string, goal *Term, note stri
 	if x.dry > 0 {
 		return
 	}
+	var split []*Term
 	if cs := conjuncts(goal); len(cs) > 1 && (kind == "post" || kind == "inv" || kind == "edge" || strings.HasPrefix(kind, "pre(")) {
-		for i, c := range cs {
-			x.oblige(st, kind, fmt.Sprintf("%s/%d", label, i+1), site, c, note)
-		}
-		return
+		// solved as one VC first; only if that fails the conjuncts are solved (and reported) one by one
+		split = cs
 	}
 	name := fmt.Sprintf("%s#%s", x.curKey, kind)
 	if label != "" {
@@ -161,7 +162,7 @@ func (x *Exec) oblige(st *State, kind, label, site string, goal *Term, note stri
 	if n := x.nameCount[name]; n > 1 {
 		name = fmt.Sprintf("%s~%d", name, n)
 	}
-	o := &Obligation{Name: name, Func: x.curKey, Kind: kind, Facts: x.facts[:len(x.facts):len(x.facts)], PC: st.pc, Goal: goal, Note: note}
+	o := &Obligation{Name: name, Func: x.curKey, Kind: kind, Facts: x.facts[:len(x.facts):len(x.facts)], PC: st.pc, Goal: goal, Note: note, Split: split, label: label, site: site}
 	if x.cur != nil {
 		o.Props = x.cur.Props
 	}
